@@ -248,6 +248,14 @@ func c08Case(t *core.T, big bool) {
 		select {
 		case <-parked:
 			wd.Keys = allKeys
+			if t.R.Bool() && wd.N.Height() > 4 {
+				// a reorganisation that takes blocks with the victim's spends and payments off the chain
+				d := t.R.Range(1, 3)
+				if nb, _, err := wd.Fork(d, d+t.R.Range(0, 1), 2); err == nil && nb != nil {
+					wd.W.Deliver(nb)
+					t.Count("cases_with_reorg_between_removal_phases", 1)
+				}
+			}
 			for j := 0; j < t.R.Range(1, 3); j++ {
 				b, err := wd.Extend(t.R.Range(2, 4))
 				if err != nil {
